@@ -123,6 +123,7 @@ def gen_case(g, tier, idx):
             if vary and r.random() < 0.7:
                 F, Q = new_F(), _spd(g, n, 2)
             st["F"], st["Q"] = F, Q
+            st["hand"] = r.choice([1, 2]) if (s > 0 and "P" in kinds[:s] and r.random() < 0.2) else 0
             if exo:
                 st["exo_skip"] = r.random() < 0.3
                 st["G"] = g.mat(n, n, -0.5, 0.5) if r.random() < 0.7 else [[0.0] * n for _ in range(n)]
@@ -139,9 +140,13 @@ def gen_case(g, tier, idx):
             xs = g.vec(n, -2, 2)
             st["y"] = [sum(H[i][j] * xs[j] for j in range(n)) + r.uniform(-0.5, 0.5) for i in range(m)]
             st["valid"] = not (r.random() < 0.18) or (style == "samebelief" and s == 0)
-            st["move"] = (s > 0 and "C" in kinds[:s] and r.random() < 0.15)
+            st["move"] = r.choice([1, 2]) if (s > 0 and "C" in kinds[:s] and r.random() < 0.2) else 0
             if shipped_lik:
-                st["lik"] = {"kind": 2, "scale": lik_scale}
+                st["lik"] = {"kind": 2, "scale": lik_scale, "fail": 0}
+                if r.random() < 0.2 and not (style == "samebelief" and s == 0):
+                    # a call of the measurement model fails: the likelihood turns invalid from inside
+                    st["lik"]["fail"] = r.randint(1, 4)
+                    st["front_valid"], st["valid"] = True, False
             elif r.random() < 0.5:
                 l = [r.uniform(0.01, 2.0) for _ in range(k)]
                 if style == "zeros":
@@ -178,22 +183,23 @@ def harness_line(M):
     for st in M["steps"]:
         t += [st["kind"], "1" if st["skip"] else "0"]
         if st["kind"] == "P":
+            t += [str(int(st.get("hand", 0)))]
             t += vlib.fmt_mat_cm(st["F"]) + vlib.fmt_mat_cm(st["Q"])
             if M["exo"]:
                 t += ["1" if st["exo_skip"] else "0"] + vlib.fmt_mat_cm(st["G"]) + [hexd(v) for v in st["g"]]
         if st["kind"] == "C":
-            t += ["1" if st.get("move") else "0", "1" if st.get("inplace") else "0"]
+            t += [str(int(st.get("move", 0))), "1" if st.get("inplace") else "0"]
             t += vlib.fmt_mat_cm(st["H"]) + vlib.fmt_mat_cm(st["R"])
             if tr["kind"] == 0:
                 t += vlib.fmt_mat_cm(st["trans"]["A"]) + [hexd(v) for v in st["trans"]["b"]] + [hexd(st["trans"]["c"])]
-            t += [hexd(v) for v in st["y"]] + ["1" if st["valid"] else "0"]
+            t += [hexd(v) for v in st["y"]] + ["1" if st.get("front_valid", st["valid"]) else "0"]
             lk = st["lik"]
             if lk["kind"] == 0:
                 t += ["0"] + [hexd(v) for v in lk["l"]]
             elif lk["kind"] == 1:
                 t += ["1"] + [hexd(v) for v in lk["c"]] + [hexd(v) for v in lk["a"]]
             else:
-                t += ["2", hexd(lk["scale"])]
+                t += ["2", hexd(lk["scale"]), str(int(lk.get("fail", 0)))]
     return " ".join(t)
 
 
@@ -253,6 +259,7 @@ def parse_harness(M, out):
             if st["kind"] == "C":
                 d["zraw"] = t[p:p + n * k]; p += n * k
                 d["calls"] = int(t[p]); p += 1
+                d["decoy_calls"] = int(t[p]); p += 1
                 if t[p] == "lik":
                     d["valid"] = True; p += 1
                     cnt = int(t[p]); p += 1
@@ -453,22 +460,26 @@ def driver_line(M, H_, wit, zarr):
     for s, (st, hs) in enumerate(zip(M["steps"], H_["steps"])):
         t += [st["kind"], "1" if st["skip"] else "0"] + hs["dmeans"] + hs["dcovs"]
         if st["kind"] == "C":
+            t.append(str(int(st.get("move", 0))))
             for i in range(k):
                 t += vlib.fmt_mat_cm(wit[s][i])
             t += zarr[s]
-            t.append("1" if st["valid"] else "0")
+            t.append("1" if st.get("front_valid", st["valid"]) else "0")
             lk = st["lik"]
             if lk["kind"] == 0:
                 t += ["0"] + [hexd(v) for v in lk["l"]]
             elif lk["kind"] == 1:
                 t += ["1"] + [hexd(v) for v in lk["c"]] + [hexd(v) for v in lk["a"]]
             else:
-                t += ["2", hexd(lk["scale"])] + vlib.fmt_mat_cm(st["H"]) + vlib.fmt_mat_cm(st["R"]) + [hexd(v) for v in st["y"]]
+                fl = int(lk.get("fail", 0))
+                t += ["2", hexd(lk["scale"])] + ["0" if fl == j else "1" for j in (1, 2, 3, 4)] + vlib.fmt_mat_cm(st["H"]) + vlib.fmt_mat_cm(st["R"]) + [hexd(v) for v in st["y"]]
             tr = M["trans"]
             if tr["kind"] == 0:
                 t += ["0"] + vlib.fmt_mat_cm(st["trans"]["A"]) + [hexd(v) for v in st["trans"]["b"]] + [hexd(st["trans"]["c"])]
-            else:   # the shipped model's own F and Q (their closed form is property C16)
-                t += ["1"] + vlib.fmt_mat_cm(H_["wnaF"]) + vlib.fmt_mat_cm(H_["wnaQ"])
+            elif H_.get("wna_closed_form"):   # the model builds F and Q itself from (T, q~)
+                t += ["1", hexd(tr["T"]), hexd(tr["q"])]
+            else:   # the shipped model's own F and Q differ from the closed form (property C16, not decided here)
+                t += ["2"] + vlib.fmt_mat_cm(H_["wnaF"]) + vlib.fmt_mat_cm(H_["wnaQ"])
     return " ".join(t)
 
 
@@ -526,7 +537,8 @@ def analyse(M, Hh, acc):
         Fc, Qc = wna_FQ(n, tr["T"], tr["q"])
         dF = max(abs(F[i][j] - Fc[i][j]) for i in range(n) for j in range(n))
         dQ = max(abs(Q[i][j] - Qc[i][j]) / max(abs(Qc[i][j]), 1e-300) for i in range(n) for j in range(n))
-        if dF > 0 or dQ > 8 * EPS:
+        Hh["wna_closed_form"] = not (dF > 0 or dQ > 8 * EPS)
+        if not Hh["wna_closed_form"]:
             acc.hit("note:wna-F-or-Q-not-closed-form (property C16, not decided here)")
         Ff = [[Fraction(x) for x in row] for row in F]
     for s, (st, hs) in enumerate(zip(M["steps"], Hh["steps"])):
@@ -553,6 +565,8 @@ def analyse(M, Hh, acc):
             return None, None, None
         if st["kind"] == "P":
             acc.hit("pred-wrapped:%s" % ["KF", "UKF"][M["pred_kind"]])
+            if st.get("hand"):
+                acc.hit("prediction-object-%s-mid-history" % ("move-constructed" if int(st["hand"]) == 1 else "move-assigned"))
             if M["exo"]:
                 acc.hit("prediction-with-exogenous-model:" + ("skipped" if (st["exo_skip"] or st["skip"]) else "active"))
             # ---- clause: prediction leaves positions and weights untouched
@@ -578,13 +592,21 @@ def analyse(M, Hh, acc):
         acc.hit("lik-kind:%d" % st["lik"]["kind"])
         acc.hit("trans-kind:%d" % tr["kind"])
         if st.get("move"):
-            acc.hit("correction-object-moved-mid-history")
+            acc.hit("correction-object-%s-mid-history" % ("move-constructed" if int(st["move"]) == 1 else "move-assigned"))
+        if hs.get("decoy_calls"):
+            # hand-over: the moved-to object consulted the likelihood model it was configured with before
+            # the assignment instead of the source's
+            prop.append(("move-assign-keeps-old-likelihood-model", "%s: after move assignment the GPFCorrection evaluated the likelihood model of the "
+                         "assigned-to object (%d calls), not the source's: it does not behave as the configured original" % (tag, hs["decoy_calls"])))
+            return None, None, None
         if hs["calls"] != 1:
             acc.hit("note:likelihood-model-called-%d-times" % hs["calls"])
         if hs["gvalid"] != st["valid"] or (st["valid"] and hs.get("valid") and hs["gl"] != hs["l"]):
             acc.hit("note:getLikelihood-differs-from-what-the-likelihood-model-returned")
         if invalid:
             acc.hit("branch:invalid-likelihood")
+            if st["lik"].get("fail"):
+                acc.hit("GaussianLikelihood-early-return:%s-fails" % ["", "measure", "predictedMeasure", "innovation", "noiseCovariance"][st["lik"]["fail"]])
             # ---- an invalid likelihood leaves the predicted set as it is
             if cur.tokens() != prev.tokens():
                 prop.append(("invalid-likelihood-not-identity", "%s: likelihood invalid but the returned set differs from the predicted set" % tag))
